@@ -58,6 +58,10 @@ def cases(ctx):
                     # the section that holds the key is opened again later with nothing (or only a comment) in it: still the same section
                     again = rnd.choice(['[' + G.SEC[ty] + ']\n', '[Service]\nRestart=no\n[' + G.SEC[ty] + ']\n# Foo=1\n', '[' + G.SEC[ty] + ']\n\n[Install]\n'])
                     out.append((ty, base + pre + form + again, nm, G.SEC[ty]))
+        # every key that is documented for some *other* unit type (or for [Quadlet], [Service]) and not for this one, once, in every
+        # run: a key borrowed from another type is the realistic mistake, and a table of exceptions would be keyed by such names
+        for k in others:
+            out.append((ty, base + f'{k}=x\n', k, G.SEC[ty]))
         # [Quadlet] section
         for nm in ['defaultdependencies', 'DefaultDependency', 'Foo', 'Image']:
             for val in ['1', '', '1\n' + nm + '=']:
